@@ -109,6 +109,15 @@ func runsFor(prop, tier string) []run {
 			{"rf1-from-initial", ini(1, 2), pick(6, 8), minutes(pickf(0.3, 2))},
 			{"rf4-from-initial", ini(4, 4), pick(6, 8), minutes(pickf(0.4, 3))},
 			{"rf5-from-initial", ini(5, 5), pick(6, 7), minutes(pickf(0.4, 3))},
+			// replicas fail while the volume is idle: only the monitor path (real monitorPing goroutine on the real rpc
+			// client, real Controller.monitoring) can notice - cut connections, refused pings - then writes and flushes
+			{"rf3-idle-failures-real-monitor-and-rpc", func() eb.Cfg {
+				c := mk(3, 3, rw3, 2)
+				c.Alphabet = []string{"ConnDrop", "PingF", "PingOK", "W", "Sy", "Remove"}
+				c.ViaRPC, c.RealMon = true, true
+				c.MaxFaults = 3
+				return c
+			}(), pick(3, 4), minutes(pickf(0.8, 5))},
 		}
 	case "C04":
 		alpha := []string{"W0", "R", "Add", "Reb", "Sync", "Verify", "VerifyF", "VerifyEarly", "Remove", "ERR", "MonFail", "Restart"}
@@ -151,6 +160,14 @@ func runsFor(prop, tier string) []run {
 				c.ViaRPC = true
 				return c
 			}(), pick(3, 4), minutes(pickf(0.5, 4))},
+			// the monitor path end to end: real monitorPing goroutines on real rpc clients, real Controller.monitoring;
+			// connections cut while idle, refused pings, failing I/O
+			{"rf3-real-monitor-and-rpc", func() eb.Cfg {
+				c := mk(3, 3, rw3)
+				c.Alphabet = []string{"ConnDrop", "PingF", "PingOK", "W", "R", "Remove"}
+				c.ViaRPC, c.RealMon, c.Drain = true, true, true
+				return c
+			}(), pick(3, 4), minutes(pickf(0.8, 5))},
 			{"rf2-from-2rw", mk(2, 2, rw2), pick(5, 7), minutes(pickf(0.5, 3))},
 		}
 	case "C09":
